@@ -268,9 +268,9 @@ func VerifHarness_C07_FallbackCase() {
 		}
 		return c
 	}
-	db := &Database{Commands: []Command{mk("ConvertToJson", "Zq"), mk("xxcyytzzj", "zq"), mk("cxtxj", "Qz"), mk("nn", "oo")}}
+	db := &Database{Commands: []Command{mk("ConvertToJson", "Zq"), mk("xxcyytzzj", "zq"), mk("cxtxj", "Qz"), mk("nn", "oo"), mk("gtimer", "s"), mk("git", "s")}}
 	db.BuildUniversalIndex()
-	q := []string{"ctj", "cj", "tj", "zz"}[verifIntRange("query", 0, 3)]
+	q := []string{"ctj", "cj", "tj", "zz", "gti"}[verifIntRange("query", 0, 4)]
 	if len(db.SearchUniversal(q, SearchOptions{Limit: 5, AllPlatforms: true})) > 0 {
 		return // answered lexically: not the fallback
 	}
@@ -281,6 +281,13 @@ func VerifHarness_C07_FallbackCase() {
 		verifAssert(c03SameFloat(r.Score, want), "C07: a fallback result is scored on the command's own text")
 		if k > 0 {
 			verifAssert(res[k-1].Score >= r.Score, "C07: fallback results are ordered best match first")
+			// best first by the matcher's own quality too (scores are clamped: several matches
+			// may share 1.0 or 0.0)
+			prev := fuzzy.Find(q, []string{res[k-1].Command.Command + " " + res[k-1].Command.Description})
+			cur := fuzzy.Find(q, []string{r.Command.Command + " " + r.Command.Description})
+			if len(prev) == 1 && len(cur) == 1 {
+				verifAssert(prev[0].Score >= cur[0].Score, "C07: fallback results are ordered best match first (match quality)")
+			}
 		}
 	}
 	n := 0
